@@ -70,6 +70,7 @@ def colourings(TD, m):
 def probe_inst(unw2, unw3, tds=(2, 3)):
     """(shape, colouring, operation-key) instances with canonical keys (see closed.c): every LLRB 2-3-4 tree of the height, PROBE ranges over 0..2n"""
     out = []
+    ntree = [0]
     for td, unw in ((2, unw2), (3, unw3)):
         if td not in tds:
             continue
@@ -78,8 +79,13 @@ def probe_inst(unw2, unw3, tds=(2, 3)):
                 continue
             n = bin(m).count('1')
             for c in colourings(td, m):
+                ntree[0] += 1
                 for k in range(0, 2 * n + 1):
-                    out.append(dict(TD=td, SHAPE=m, COLORS=c, KEYS_CANON=1, PROBE=k, unwind=unw))
+                    d = dict(TD=td, SHAPE=m, COLORS=c, KEYS_CANON=1, PROBE=k, unwind=unw)
+                    # quick tier: all trees of height <= 2 and every third tree of height 3; thorough: all
+                    if td == 3 and ntree[0] % 3 != 0:
+                        d['tier'] = 'thorough'
+                    out.append(d)
     return out
 
 
